@@ -5,7 +5,7 @@
 EXTENDS VCsv
 CONSTANTS MaxRows
 
-Surfaces == { <<97>>, <<97, 98>>, <<97, 44, 98>>, <<97, 34, 98>>, <<32, 97>>, <<26481>>, <<>> }
+Surfaces == { <<97>>, <<97, 98>>, <<97, 44, 98>>, <<97, 34, 98>>, <<32, 97>>, <<26481>>, <<35, 97>>, <<>> }
 Ls == {0, 65535}   Cs == {-32768, 7}
 Feats == { <<120>>, <<120, 44, 121>>, <<34, 120, 44, 121, 34, 44, 122>>, <<34, 113, 34, 34, 114, 34>>, <<>>, <<120, 44>> }
 RowSet == [s : Surfaces, l : Ls, r : {1}, c : Cs, f : Feats]
